@@ -76,7 +76,7 @@ var pureStd = map[string]bool{
 
 // packages with partial seams: listed functions are redirected, listed pure ones are allowed, other functions refused
 var shimFuncs = map[string]map[string]string{
-	"os":            {"ReadFile": "ReadFile", "Stat": "Stat", "Lstat": "Lstat", "ReadDir": "ReadDir", "Getwd": "Getwd", "Open": "Open"},
+	"os":            {"ReadFile": "ReadFile", "Stat": "Stat", "Lstat": "Lstat", "ReadDir": "ReadDir", "Getwd": "Getwd", "Open": "Open", "SameFile": "SameFile"},
 	"path/filepath": {"Walk": "Walk", "WalkDir": "WalkDir", "Abs": "Abs"},
 	"time":          {"Now": "Now", "Since": "Since", "Until": "Until", "Sleep": "Sleep"},
 	"io/ioutil":     {"ReadFile": "ReadFile"},
@@ -91,6 +91,7 @@ var allowedFuncs = map[string]map[string]bool{
 	"reflect":       {},
 	"sync":          {},
 	"maps":          {},
+	"syscall":       {}, // error numbers and types only; every function of the package is refused
 }
 
 // global math/rand functions that exist as methods of *rand.Rand
